@@ -704,7 +704,7 @@ func init() {
 
 	// ---- sync (single-threaded models) ----
 	nop := func(fr *frame, args []value) value { return nil }
-	for _, n := range []string{"(*sync.Mutex).Lock", "(*sync.Mutex).Unlock", "(*sync.RWMutex).Lock", "(*sync.RWMutex).Unlock", "(*sync.RWMutex).RLock", "(*sync.RWMutex).RUnlock", "(*sync.Pool).Put", "(*sync.WaitGroup).Add", "(*sync.WaitGroup).Done", "(*sync.WaitGroup).Wait", "runtime.KeepAlive", "runtime.SetFinalizer", "runtime.Gosched"} {
+	for _, n := range []string{"(*sync.Mutex).Lock", "(*sync.Mutex).Unlock", "(*sync.RWMutex).Lock", "(*sync.RWMutex).Unlock", "(*sync.RWMutex).RLock", "(*sync.RWMutex).RUnlock", "(*sync.WaitGroup).Add", "(*sync.WaitGroup).Done", "(*sync.WaitGroup).Wait", "runtime.KeepAlive", "runtime.SetFinalizer", "runtime.Gosched"} {
 		reg(n, "single-threaded no-op", nop)
 	}
 	reg("(*sync.Mutex).TryLock", "single-threaded model", func(fr *frame, args []value) value { return true })
@@ -722,8 +722,27 @@ func init() {
 		call(fr.i, fr, token.NoPos, args[1], nil)
 		return nil
 	})
-	reg("(*sync.Pool).Get", "Pool.Get = New()", func(fr *frame, args []value) value {
+	// sync.Pool: Get may return any item Put earlier or New(); the model takes the most
+	// recently Put item when there is one (what the runtime does on one goroutine without a
+	// collection in between) - the choice that lets state left in a pooled object show
+	reg("(*sync.Pool).Put", "LIFO list per pool (per path)", func(fr *frame, args []value) value {
 		p := args[0].(*value)
+		if it, ok := args[1].(iface); ok && it.t == nil {
+			return nil
+		}
+		if fr.i.pools == nil {
+			fr.i.pools = map[*value][]value{}
+		}
+		fr.i.pools[p] = append(fr.i.pools[p], args[1])
+		return nil
+	})
+	reg("(*sync.Pool).Get", "most recently Put item, else New()", func(fr *frame, args []value) value {
+		p := args[0].(*value)
+		if l := fr.i.pools[p]; len(l) > 0 {
+			x := l[len(l)-1]
+			fr.i.pools[p] = l[:len(l)-1]
+			return x
+		}
 		s := (*p).(structure)
 		nf := s[len(s)-1]
 		if f, ok := nf.(*ssa.Function); ok && f == nil {
